@@ -160,6 +160,20 @@ Proof.
     + intros rp s'. apply H. intros p v0 s0 Hl'. eapply Hl. econstructor. eassumption.
 Qed.
 
+(* executable path following (for examples: never normalise a continuation, apply it) *)
+Fixpoint follow {A} (r : res A) (p : list (reply * state)) {struct p} : option (res A) :=
+  match p with
+  | [] => Some r
+  | (rp, s') :: p' => match r with Eff _ _ k => follow (k rp s') p' | _ => None end
+  end.
+
+Lemma follow_leaf_lemma {A} (r : res A) p x : follow r p = Some x -> is_eff x = false -> leaf r p x.
+Proof.
+  revert r; induction p as [|[rp s'] p IH]; intros r H Hx; simpl in H.
+  - inversion H; subst. constructor; auto.
+  - destruct r; try discriminate. constructor. apply IH; auto.
+Qed.
+
 (* leaves of a handled computation: a leaf of r, then a leaf of the continuation applied to it *)
 Lemma handle_leaf_ret_lemma {A B} (r : res A) (f : A -> state -> res B) h p a s q x :
   leaf r p (Ret a s) -> leaf (f a s) q x -> leaf (handle r f h) (p ++ q) x.
